@@ -39,12 +39,44 @@ CHECKS = {
              "Generated item trees and per-frame elaborate results (core space and order space) plus the fixpoint-guard family, executed "
              "on 3.9-3.12; frames and leaf must equal a reference model written from the documentation (scopes, no depth counters)." + HELD,
              "Trusted: the reference model's reading of the documented rules; cases the documentation leaves undefined are skipped and counted."),
+    "C05": E("fault_enumeration", "5/C05",
+             "fault injection: exhaustive single faults (site x k-th dynamic invocation) and enumerated/sampled pairs over Hypothesis-generated extraction scenarios",
+             "For each generated scenario (coroutine chains with nested generator-based managers and exit stacks, custom stack "
+             "items, a blocked thread, a suspended greenlet) every single fault at each of 7 hook sites is injected and pairs are "
+             "enumerated up to a budget; extract must return a Stack, every injected exception must be found by identity in the "
+             "error of exactly the Stack being built, outward frames must equal the fault-free run, the result must format. Plus "
+             "non-stack objects as input." + HELD,
+             "Trusted: interposition on three module-level names of stackscope._extract to know which Stack is being built; CPython 3.11/3.12 only."),
+    "C13": E("exploration", "5/C13",
+             "property-based testing: generated nested call trees of extract/extract_outermost/extract_child/fill_context with per-level options, single-threaded and under generated cooperative schedules of 2-4 threads",
+             "Options in force are observed through public behaviour at every hook entry and after every child returns or raises, "
+             "and compared with the model 'innermost enclosing extract on this thread'; threaded leg drives 2-4 such trees under "
+             "generated interleavings at hook granularity." + HELD,
+             "Trusted: the observation method (stub-or-not, contexts-or-not); interleavings only at hook-entry granularity."),
     "C16": E("exploration", "5/C16",
              "property-based testing: generated chains (suspended and extracted from inside while running) and item trees; oracle = builder's ownership record",
              "For every frame of generated chains (suspended and running) and of custom item trees: origin weak-referenceable and "
              "extract_outermost(origin).pyframe is the frame; owner == origin for frames owned by suspended generators; "
              "extract_outermost(x) == extract(x).frames[0] or raises with the recorded error. Includes the saved F9 crash history." + HELD,
              "Trusted: the builder's record of which object owns which frame."),
+    "C17": E("exploration", "5/C17",
+             "model-based property testing over generated sys.modules histories + generated thread schedules at guarded yield points",
+             "Generated add/remove/re-add/extract histories judged after every extraction by a model of which glue must have run; "
+             "generated 2-4 thread schedules over the guarded yield points of add_glue_as_needed with a lock-aware cooperative "
+             "controller. Open finding F4 (len(sys.modules) fast path) is recognised by signature, counted and excluded." + HELD,
+             "Trusted: the model; yield points coincide with real preemption points; built-in glue registered via stackscope._glue.builtin_glue."),
+    "C18": E("exploration", "5/C18",
+             "property-based testing: generated Stack/Frame/Context trees x 8 option combinations; round-trip oracle (recursive-descent reader of the box-drawing text) + ASCII marker mapping",
+             "Every generated tree is formatted in all 8 option combinations on 3.9-3.12; lines must be single newline-terminated "
+             "lines, str == join, the text must read back (structure and unique element tokens) to the abstraction of the tree under "
+             "those options, and the ascii_only text must be the marker-for-marker image of the Unicode text." + HELD,
+             "Trusted: the reader's grammar (grounded in the README examples) and the abstraction function."),
+    "C19": E("exploration", "5/C19",
+             "property-based testing: generated Stack trees x 8 option combinations; reference projection oracle + pickle round trip + reachability + format_flat decomposition",
+             "The stdlib summary of every generated tree must match, entry for entry, a reference projection written from the "
+             "documentation; summaries must pickle, reach no frame, and format_flat must decompose into header + "
+             "StackSummary.format() + leaf + error lines; 3.9-3.12." + HELD,
+             "Trusted: the reference projection; only filename/line/function-name prefix are asserted for context entries."),
     "C20": E("exploration", "5/C20",
              "property-based testing: generated with-programs observed in referents mode; shadow-stack over-approximation oracle",
              "Generated programs observed at every suspension point with trickery disabled on 3.9-3.12; result must be an ordered "
